@@ -288,13 +288,13 @@ func (s scen) judge(e *sched.Exec) (string, string, *sched.Failure) {
 				}
 			}
 		}
-		if s.bound == 0 && bi == 0 && s.F != nil && s.F.At >= 1 {
+		if s.bound == 0 && (bi == 0 || s.VaryEvents) && s.F != nil && s.F.At >= 1 {
 			for _, x := range b.exts {
-				// ground truth at the end of the first initialisation
+				// ground truth at the end of this initialisation (initialisation bi starts the processes of generation bi+1)
 				var reg, polled bool
 				var evs []string
 				for _, c := range w.Calls {
-					if c.Actor == "ext:"+x.AgentName && c.Gen == 1 && sched.HB(c.IssuedAt, b.start.At) == false {
+					if c.Actor == "ext:"+x.AgentName && c.Gen == bi+1 && sched.HB(c.IssuedAt, b.start.At) == false {
 						if c.Kind == "register" && c.Answered >= 0 && c.Status == 200 {
 							reg = true
 							var m struct {
@@ -390,6 +390,11 @@ func init() {
 			add(0, &faults.Fault{Who: "runtime", Point: "before-next", Action: "sig9", At: 1}, 1, false)
 			add(1, &faults.Fault{Who: "runtime", Point: "before-next", Action: "exit1", At: 1}, 1, false)
 			add(1, &faults.Fault{Who: "runtime", Point: "idle", Action: "exit1", At: 1}, 1, false)
+		}
+		// the extensions of the generation started after the fault subscribe differently: the status lines of the second
+		// initialisation describe them, not their predecessors
+		for _, f := range []*faults.Fault{{Who: "runtime", Point: "after-next", Action: "exit1", At: 1}, {Who: "runtime", Point: "after-next", Action: "stall", At: 1}, {Who: "runtime", Point: "idle", Action: "sig9", At: 1}} {
+			ss = append(ss, scen{Scen: faults.Scen{NExt: 1, F: f, Timeout: 3, VaryEvents: true}, bound: 0})
 		}
 		var out []hx.Scenario
 		for _, s := range ss {
